@@ -910,6 +910,11 @@ func ParentMain(id, tier string) int {
 		for _, e := range p.harnessErr {
 			fmt.Fprintln(os.Stderr, "HARNESS-ERROR:", e)
 		}
+		if exit == 1 {
+			// violations were found AND the machinery also tripped (typically a tree whose misbehaviour is itself
+			// non-deterministic, so that a replay diverged): the violations stand — exit 1, harness errors shown
+			return 1
+		}
 		return 2
 	}
 	return exit
